@@ -250,6 +250,11 @@ def cmd_compile(gp, seed, n, outdir):
         "pub enum NAME<P, M> { A(Option<(P, core::marker::PhantomData<M>)>), #[codec(skip)] B(M), C { #[codec(skip)] m: core::marker::PhantomData<M>, p: Vec<P> } }\n"
         "pub fn use_it() -> Vec<u8> { parity_scale_codec::Encode::encode(&NAME::<u32, crate::NotCodec>::A(None)) }\n",
         "accepts", "enum 3 0 - - 1 p u32 1 - - 1 p u32 0 - - 2 s u32 p u32", None)
+    # attributes with a trailing comma: accepted, and conflicting ones still rejected (finding F8)
+    add(D + "pub struct NAME { #[codec(skip,)] a: u32, #[codec(compact,)] b: u32, c: u8 }\n", "accepts", "struct 3 s u32 c u32 p u32", None)
+    add(D + "pub enum NAME { #[codec(index = 5,)] A, #[codec(skip,)] B, #[codec(index = 5)] C }\n", "accepts", "enum 3 0 5 - 0 1 - - 0 0 5 - 0", "duplicate index (one written with a trailing comma)")
+    add(D + "pub enum NAME { #[codec(index = 5,)] A, #[codec(skip,)] B, C }\n", "accepts", "enum 3 0 5 - 0 1 - - 0 0 - - 0", None)
+    add(D + "pub struct NAME { #[codec(skip, compact,)] a: u32 }\n", "accepts", "struct 1 x sc u32", "conflicting field attributes (one comma-separated list)")
     # associated-type projections of a type parameter - one of them NAMED LIKE THE DERIVING TYPE ITSELF
     # (the derive leaves self-referential field types out of the where-clause; `P::NAME` is not one)
     CFG = ("pub trait Cfg { type NAME; type Other; }\n"
